@@ -116,7 +116,7 @@ def explore(ctx):
     res.rule = RULE
     depth = 3 if ctx.tier == "quick" else 4
     n = ctx.n(160, 3000)
-    jobs = make_jobs(ctx, n // 2, depth, "optional") + make_jobs(ctx, n - n // 2, depth, "any")
+    jobs = core.corpus_jobs("C01") + make_jobs(ctx, n // 2, depth, "optional") + make_jobs(ctx, n - n // 2, depth, "any")
     real, model = core.run_jobs(jobs)
     res.programs = len(jobs)
     for job, ro, mo in zip(jobs, real, model):
